@@ -16,9 +16,13 @@ fn hexval(c: u8) -> Option<u8> {
 /// asked about exactly those bytes and said yes; accepted keys carry exactly those bytes.
 #[kani::proof]
 #[kani::stub(curve25519_dalek::edwards::CompressedEdwardsY::decompress, vs::decompress_oracle)]
+#[kani::stub(curve25519_dalek::edwards::EdwardsPoint::compress, vs::compress_model)]
 #[kani::stub(n0_error::backtrace_enabled, vstubs::backtrace_disabled)]
 fn c02_key_from_bytes_iff_valid_point() {
     let bytes: [u8; 32] = kani::any();
+    unsafe {
+        vs::DECOMPRESSED_FROM = bytes;
+    }
     let r = PublicKey::from_bytes(&bytes);
     let ans = vs::oracle_answer(&bytes);
     assert!(r.is_ok() == (ans == Some(true)));
@@ -30,6 +34,49 @@ fn c02_key_from_bytes_iff_valid_point() {
     }
     kani::cover!(r.is_ok());
     kani::cover!(r.is_err());
+}
+
+/// C02: the three kinds of non-canonical encodings that curve25519-dalek accepts (y = p+1, y = p,
+/// and x = 0 with the sign bit set) are kept byte for byte by every byte-level constructor, so
+/// that a key obtained one way equals the same key obtained another way.  Concrete inputs that
+/// are valid points natively: a counterexample replays against the real build.
+#[kani::proof]
+#[kani::unwind(34)]
+#[kani::stub(curve25519_dalek::edwards::CompressedEdwardsY::decompress, vs::decompress_all_valid)]
+#[kani::stub(curve25519_dalek::edwards::EdwardsPoint::compress, vs::compress_model)]
+#[kani::stub(n0_error::backtrace_enabled, vstubs::backtrace_disabled)]
+fn c02_key_noncanonical_bytes_kept() {
+    let which: u8 = kani::any();
+    let mut b = [0xffu8; 32];
+    match which % 3 {
+        0 => {
+            // y = p + 1 == 1: the identity, non-reduced
+            b[0] = 0xee;
+            b[31] = 0x7f;
+        }
+        1 => {
+            // y = p == 0
+            b[0] = 0xed;
+            b[31] = 0x7f;
+        }
+        _ => {
+            // y = 1, x = 0, sign bit set
+            b = [0u8; 32];
+            b[0] = 1;
+            b[31] = 0x80;
+        }
+    }
+    assert!(!vs::is_canonical(&b));
+    unsafe {
+        vs::DECOMPRESSED_FROM = b;
+    }
+    let k1 = PublicKey::from_bytes(&b).unwrap();
+    assert!(*k1.as_bytes() == b);
+    let k2 = PublicKey::try_from(&b[..]).unwrap();
+    assert!(*k2.as_bytes() == b);
+    let k3 = PublicKey::try_from(&b).unwrap();
+    assert!(*k3.as_bytes() == b);
+    assert!(k1 == k2 && k2 == k3);
 }
 
 /// C02: TryFrom<&[u8]> accepts exactly 32-byte slices the oracle accepts; other lengths are errors.
